@@ -249,6 +249,43 @@ func runC05(c *ctx) {
 		}
 		c.exhaustive("all_pairs_of_sample_tokens_x_separators", true)
 	}
+	// ---------------- (b1') long texts: every alignment of tokens against the reader's buffer boundaries
+	{
+		lr := c.rng("long")
+		body := ""
+		for len(body) < 300 {
+			body += genScanText(lr, 6, false) + " "
+		}
+		var pads []int
+		for _, base := range []int{2048, 4096, 6144, 8192, 12288, 16384} {
+			lo, hi := base-c.n(70, 300), base+c.n(20, 60)
+			for p := lo; p <= hi; p++ {
+				pads = append(pads, p)
+			}
+		}
+		for _, p := range pads {
+			for variant, pad := range []string{strings.Repeat(" ", p), "/*" + strings.Repeat("x", max(0, p-4)) + "*/", strings.Repeat("ab \n", p/4) + strings.Repeat(" ", p%4)} {
+				if !c.mine() {
+					continue
+				}
+				check(fmt.Sprintf("long/pad%d/%d", p, variant), pad+body)
+				c.count("long_texts_scanned", 1)
+			}
+		}
+		// long composed specifications shifted byte by byte
+		long := ""
+		for len(long) < 13000 {
+			long += genScanText(lr, 8, false) + "\n"
+		}
+		for shift := 0; shift < c.n(48, 400); shift++ {
+			for _, size := range []int{5800, 9000, 12800} {
+				if c.mine() {
+					check(fmt.Sprintf("long/shift%d/%d", shift, size), strings.Repeat(" ", shift)+long[:size]+" x")
+					c.count("long_texts_scanned", 1)
+				}
+			}
+		}
+	}
 	// ---------------- (b2) seeded random assemblies
 	r := c.rng("texts")
 	n := c.n(40000, 600000)
